@@ -502,7 +502,11 @@ func (w *World) RequestMeltQuote(request string, mppMsat uint64) (*MMeltQuote, e
 				msat = mppMsat
 			}
 			// the quote amount is the number of whole sats needed to cover msat
-			over := (msat+999)/1000 > x
+			need := msat / 1000
+			if msat%1000 != 0 {
+				need++
+			}
+			over := need > x
 			if over && err == nil {
 				w.Flag("C16", "melt_quote_accepted_over_melt_max", "%d msat accepted with melt max %d (quote amount %d)", msat, x, q.Amount)
 			}
